@@ -750,4 +750,35 @@ theorem quiescent_due_has_ended (s : Sys) (hq : quiescent s)
   · exact Or.inl h
   · exact Or.inr h
 
+/-! ### what the deterministic scheduler computes is a quiescent state -/
+
+theorem runnableClients_nil (s : Sys) (n start : Nat) (h : runnableClients s n start = []) :
+    ∀ oid, start ≤ oid → oid < start + n → clientLabel s oid = none := by
+  induction n generalizing start with
+  | zero => intro oid h1 h2; omega
+  | succ n ih =>
+    intro oid h1 h2
+    simp only [runnableClients] at h
+    split at h
+    · cases h
+    · rename_i hnone
+      by_cases he : oid = start
+      · subst he; exact hnone
+      · exact ih (start + 1) h oid (by omega) (by omega)
+
+/-- when the scheduler's run queue is empty (`Exec.runnable s = []`, the condition under which `settle` stops) the
+    state is quiescent in the sense of the progress theorems -/
+theorem runnable_nil_quiescent (s : Sys) (hi : IdsInv s) (h : runnable s = []) : quiescent s := by
+  unfold runnable at h
+  have hsplit := List.append_eq_nil_iff.mp h
+  constructor
+  · cases ha : actorLabel s with
+    | none => rfl
+    | some l => rw [ha] at hsplit; simp at hsplit
+  · intro oid
+    by_cases hlt : oid < s.nextOid
+    · exact runnableClients_nil s s.nextOid 0 hsplit.2 oid (Nat.zero_le _) (by omega)
+    · have := hi.clientNone oid (by omega)
+      simp [clientLabel, this]
+
 end Rsactor.Model
